@@ -8,12 +8,15 @@ def run(tier, seed):
     return netcheck.run_net(PROP, tier, seed,
         profiles=[('sat', 80, 800, 45), ('reify', 30, 300, 30), ('mix', 40, 500, 40), ('lra', 30, 400, 40),
                   ('idl', 30, 400, 40), ('rdl', 30, 400, 40), ('ov', 20, 200, 30)],
-        rule='seeded API histories (new_var / new_clause / reified constructors / theory literals / assume / propagate / '
+        rule='(0) every transition of the state graph of the implementation-shaped model SatCoreImpl (spec/SatCoreGen.tla prints one test per transition) replayed on the real sat_core: answer, value of every variable and decision level compared with the model after every call; deviating executions are decided by NetworkTrace; seeded API histories (new_var / new_clause / reified constructors / theory literals / assume / propagate / '
              'next / check / pop / simplify_db) on the real sat_core with LRA, IDL, RDL and OV theories attached; after '
              'every call each reported truth value must hold in every model of clauses /\\ theories /\\ standing decisions, '
              'every learnt clause (conflict analysis, theory lemma) must hold in every model, a false answer requires '
              'unsatisfiability, a complete assignment must be a model; distinct_nontrivial = distinct executions in which '
              'at least one clause was learnt',
+        models=[('MC_SatCoreImpl', 'MC_SatCoreImpl_A1.cfg', 'MC_SatCoreImpl_A.cfg',
+                 'implementation-shaped model of sat_core / clause (literal order inside clauses, ordered watch lists, trail, levels, reasons, queue; new_clause, assume, pop, next, propagate with first-UIP analysis and record, simplify_db): WatchInv, PropagationComplete, AssignedEntailed, DatabaseEntailed, DeadOnlyIfUnsat, CompleteIsModel, TrailInv, ReasonHeadInv over all call histories on a fixed clause pool', None)],
+        satimpl=(['SatCoreGen_A1.cfg', 'SatCoreGen_B.cfg', 'SatCoreGen_C.cfg'], ['SatCoreGen_A.cfg', 'SatCoreGen_B.cfg', 'SatCoreGen_C.cfg']),
         assumptions=['at most 11 propositional variables and 6 theory atoms per execution (model enumeration, Fourier-Motzkin)',
                      'documented preconditions respected: creation at root level, empty queue before assume/check/next, '
                      'no use after a root-level inconsistency'])
